@@ -152,7 +152,10 @@ def compare_instance(inst, obs, err):
         else:
             for b, row in (inst.get("sig") or {}).items():
                 if b in obs["sig"]:
-                    if [list(x) for x in obs["sig"][b]] != [[x[0], x[1] if not x[1].startswith("fun:") else x[1]] for x in row]:
+                    comp_vars = {x[0] for x in obs["sig"][b] if x[1] == "comp"}     # type of a comprehension: not modelled
+                    mrow = [[x[0], "*" if x[0] in comp_vars else x[1]] for x in obs["sig"][b]]
+                    rrow = [[x[0], "*" if x[0] in comp_vars else x[1]] for x in row]
+                    if mrow != rrow:
                         diffs.append(f"block {b}: input row real {row} model {obs['sig'][b]}")
                 elif not (int(b) == inst["exit"] and not blocks[int(b)]["reachable"]):
                     diffs.append(f"block {b}: checked by the real checker, not visited by the model")
@@ -371,6 +374,7 @@ def run(ctx) -> int:
 
     quick = ctx.quick
     n_plain, n_const = (240, 130) if quick else (2600, 1400)
+    n_expr = 230 if quick else 1800
     progs = []
     for cse in json.loads((HERE / "corpus" / "cases.json").read_text()):
         progs.append({"id": "corpus/" + cse["id"], "src": cse["src"], "group": "corpus",
@@ -379,6 +383,8 @@ def run(ctx) -> int:
         progs.append({"id": f"gen/{ctx.seed}/{i}", "src": s, "group": "plain"})
     for i, s in enumerate(gen_progs.gen_many(ctx.seed + 1, n_const, consts=True, nested=True)):
         progs.append({"id": f"genc/{ctx.seed}/{i}", "src": s, "group": "const"})
+    for i, s in enumerate(gen_progs.gen_many(ctx.seed + 2, n_expr, consts=False, nested=True, exprs=True)):
+        progs.append({"id": f"gene/{ctx.seed}/{i}", "src": s, "group": "expr"})
     by_id = {p["id"]: p for p in progs}
 
     recs = run_impl(ctx, [{"id": p["id"], "src": p["src"]} for p in progs])
@@ -531,6 +537,6 @@ def run(ctx) -> int:
         phase_seconds=T, bridge_tie=bridge,
         construct_histogram={"over": f"{len(gen_sources)} generated programs (corpus excluded)", "constructs": hist,
                              "below_5_percent": below},
-        cases={"plain": n_plain, "const": n_const, "corpus": len([p for p in progs if p["group"] == "corpus"])},
+        cases={"expr": n_expr, "plain": n_plain, "const": n_const, "corpus": len([p for p in progs if p["group"] == "corpus"])},
     )
     return ctx.finish(LEVEL, cov, info.get("axioms", []))
